@@ -69,8 +69,10 @@ def _focus(t):
     prog["nodes"].append([["obs_t", fx(vals[0])], ["obs_p", fx(vals[1])], ["obs_c", k], ["obs_w", fx(1.0 + abs(k)), fx(vals[2])]])
     one = {"float": fx(1.0), "int": 1, "duration": [fx(30.0), "s"]}[ck]
     prog["nodes"].append([["obs_t", fx(vals[2])], ["obs_p", fx(vals[0])], ["rel", one, node + 1, 5], ["obs_c", 1]])
+    end_t = start + dec_ref(prog["rep"]["length"])
     prog["root"] = [["obs_t", fx(vals[1])], ["obs_c", 2], ["obs_p", fx(vals[2])],
                     ["abs_t", enc(wt), node, 5], ["abs_t", enc(wt), node, 3], ["abs_t", enc(wt), node + 1, 7],
+                    ["abs_t", enc(end_t), node, 5],            # an observation exactly at the replication end
                     ["now", node, 5]] + prog["root"][:3]
     return prog
 
@@ -83,7 +85,7 @@ def strategy(tier):
                      st.integers(-2, 4)).map(_focus)
     return st.fixed_dictionaries({
         "prog": prog,
-        "drive": st.sampled_from(["start", "start", "steps", "pause", "bounded"]),
+        "drive": st.sampled_from(["start", "start", "steps", "pause", "bounded", "beyond", "beyond-incl"]),
         "k": st.integers(1, 10), "cuts": st.lists(st.integers(1, 9), min_size=1, max_size=3),
         "subscribe": st.booleans(),
         "reinit": st.sampled_from([None, None, None, "ended", "init", "bounded"]),
@@ -253,11 +255,17 @@ def run_case(case):
             h.rec = Recorder()
             published["n"] = 0
             del published["bad"][:]
-            h.initialize()
+            try:
+                h.initialize()
+            except Exception as e:
+                out.fail("reinitialize-raised-" + type(e).__name__, repr(e))
+                return out
         for key, name in (("c", "cnt"), ("t", "tal"), ("w", "wt"), ("p", "per")):
             try:
                 if h.model.get_output_statistic(name) is not h.model.stats[key]:
                     out.fail("output-statistic-identity", name)
+                if h.model.output_statistics().get(name) is not h.model.stats[key]:
+                    out.fail("output-statistics-map", name)
             except Exception as e:
                 out.fail("output-statistic-missing", [name, repr(e)])
         r2 = RefSim(prog)          # second reference, only to compute concrete bounds / counts for the drive
@@ -276,6 +284,13 @@ def run_case(case):
                 if r2.ended:
                     break
                 errs.append(h.run_piece(["run_up_to_incl", _jt(b, ck)]))
+        elif drive in ("beyond", "beyond-incl"):
+            # first a pause somewhere, then the rest with a bound BEYOND the replication end: every event up to and
+            # including the end must still run (and nothing later)
+            b = _bound(r2, case["cuts"][0], ck)
+            errs.append(h.run_piece(["run_up_to", _jt(b, ck)]))
+            far = r2.end + (7 if ck == "int" else 12.5)
+            errs.append(h.run_piece(["run_up_to" if drive == "beyond" else "run_up_to_incl", _jt(far, ck)]))
         from pydsol.core.simulator import RunState
         for _ in range(3):
             if h.sim.run_state != RunState.ENDED:
